@@ -15,7 +15,7 @@ LEVEL = "exploration"
 RULE = (
     "case = (k consecutive transient failures, k in 0..13 and 'always') x (with / without context_update) x (task first / "
     "middle / last of a 1-3 task stage) x (FIFO / shuffled delivery with withheld acks), plus polling tasks with n in "
-    "0..5 polls; plus two transiently failing tasks in ONE stage (3-8 failures each: each task has its own budget); plus 1-8 transient failures and 1-12 polls of ONE task mixed in random order (polls must not eat the retry "
+    "0..5 polls; the same with the queue's per-row delivery limit set to 3 / 5 / 25 (the retry budget stays the documented 10); plus two transiently failing tasks in ONE stage (3-8 failures each: each task has its own budget); plus 1-8 transient failures and 1-12 polls of ONE task mixed in random order (polls must not eat the retry "
     "budget); plus the transient / polling result racing another worker's committed write to the same stage row "
     "(persistent signal being buffered) at statement granularity. The ledger gives the number of executions and the context each attempt saw. Non-trivial = k>=1 or n>=1; "
     "distinct = (kind, k, cu, position, ntasks, order class)."
@@ -59,6 +59,10 @@ def gen_cases(tier: str, seed: int) -> list[dict]:
         rng.shuffle(steps)
         ntasks = rng.randint(1, 3)
         cases.append({"kind": "mixed", "k": "".join(steps), "cu": True, "pos": rng.randrange(ntasks), "ntasks": ntasks, "order": rng.choice(["fifo", "random"]), "seed": rng.randrange(1 << 30)})
+    for qmax in (3, 5, 25):
+        # the queue's per-row DELIVERY limit is configured differently from the documented retry budget of 10
+        for k in (2, 4, 6, 9, 12, -1):
+            cases.append({"kind": "transient", "k": k, "cu": True, "pos": 0, "ntasks": 1, "order": "fifo", "seed": rng.randrange(1 << 30), "qmax": qmax})
     for rep in range(reps * 3):
         # several flaky tasks in ONE stage: each has its own budget (k1 + k2 may exceed the limit)
         k1, k2 = rng.randint(3, 8), rng.randint(3, 8)
@@ -172,7 +176,12 @@ def run_case(case: dict) -> dict:
     spec = _spec(case["kind"], case["k"], case["cu"], case["pos"], case["ntasks"])
     k = case["k"]
     noack = 0.25 if case["order"] == "random" else 0.0
-    run = delivery_run(spec, seed=case["seed"], order=case["order"], noack_p=noack, max_steps=140 if case["kind"] != "mixed" else 260)
+    world = None
+    if case.get("qmax"):
+        from ..world import World
+
+        world = World(max_attempts=case["qmax"])
+    run = delivery_run(spec, seed=case["seed"], order=case["order"], noack_p=noack, max_steps=140 if case["kind"] != "mixed" else 260, world=world)
     obs: Counter = Counter({"evaluations": 1})
     out = []
     recs = [r for r in run.ledger if r["ref"] == "b" and r["task"] == case["pos"]]
